@@ -25,3 +25,6 @@ def run(rep):
         assumptions=["exact domain: weights integer or dyadic so that all sums are exact",
                      "graph type adjacency_list<vecS,vecS,undirectedS> with interior edge_weight property (the type used by tests and demos)"],
         entry_points=["mcb_sva_signed", "mcb_sva_fvs_trees", "mcb_sva_iso_trees"])
+    common.native_filtered(rep, "e3_search", common.C01_KINDS, functions=common.SEARCH_FUNCS,
+                           assumptions=common.SEARCH_ASSUME,
+                           entry_points=["bidirectional_signed_dijkstra", "OddCycleFinder::find"])
